@@ -279,7 +279,7 @@ func (w *treeWorld) unstall() {
 
 // flood: up to EventBufsiz/4 server events without waiting in between
 func (w *treeWorld) flood() {
-	for j := 10 + w.r.Intn(15); j > 0; j-- {
+	for j := inflight(10 + w.r.Intn(15)); j > 0; j-- {
 		w.srvEvent()
 	}
 }
@@ -287,7 +287,7 @@ func (w *treeWorld) flood() {
 // burst: several actions in flight at once (no quiescence in between)
 func (w *treeWorld) burst(kinds []string) {
 	w.tr.line(kv.L("burst-begin"))
-	for j := 2 + w.r.Intn(4); j > 0; j-- {
+	for j := inflight(2 + w.r.Intn(4)); j > 0; j-- {
 		switch x := w.r.Intn(100); {
 		case x < 50:
 			w.srvEvent()
@@ -665,7 +665,7 @@ func runTreeScenario(t *testing.T, tr *tracer, idx int, seed uint64, mode string
 			default:
 				// a burst: several server events without waiting in between
 				w.step(func() {
-					for j := 2 + r.Intn(3); j > 0; j-- {
+					for j := inflight(2 + r.Intn(3)); j > 0; j-- {
 						w.srvEvent()
 					}
 				})
